@@ -19,6 +19,7 @@ import (
 	"runtime"
 	"strings"
 	"sync"
+	"sync/atomic"
 	"time"
 
 	"verifharness/lab/ev"
@@ -128,7 +129,7 @@ type job struct {
 
 func main() {
 	r := ev.Start("C31", "exploration")
-	r.SetRule("(a) VerifBits on hashes with exactly z leading zero bits, z 0..72 and 256, bits 0..64, seeded tails; (b) stamps mined to exactly z in {d-1,d,d+1} zero bits for every difficulty d up to the tier bound, through hashcash.Verify and pow.VerifySolution with PKI-style (key-derived) and fixed subjects; seeded random stamps at d 0..12; (c) one tampered field per case (signature bit, foreign key, re-signed by foreign key, subject, difficulty above/below, algorithm, tag, lengths, empty solution, expiry offsets around 'expired' and around +-2*window); (d) solver output. Distinct by (part, d or bits, z relation or tamper kind, expected verdict).")
+	r.SetRule("(a) VerifBits on hashes with exactly z leading zero bits, z 0..72 and 256, bits 0..64, seeded tails; (b) stamps mined to exactly z in {d-1,d,d+1} zero bits for every difficulty d up to the tier bound, through hashcash.Verify and pow.VerifySolution with PKI-style (key-derived) and fixed subjects; seeded random stamps at d 0..12; (c) one tampered field per case (signature bit, foreign key, re-signed by foreign key, subject, difficulty above/below, algorithm, tag, lengths, empty solution, expiry offsets around 'expired' and around +-2*window); (d) solver output; (e) on a virtual clock (overlay: util/hashcash and spec/pow read a settable clock) stamps verified 2s..1ns before and 1ns..61s after their expiry instant, through hashcash.Verify and pow.VerifySolution. Distinct by (part, d or bits, z relation or tamper kind, expected verdict).")
 	rng := r.Rand("c31")
 	r.SetMaxSamples(8)
 	now := time.Now()
@@ -458,6 +459,83 @@ func main() {
 		}
 	}
 	r.Count("mining_hashes", hashes)
+
+	// (e) the expiry instant itself, on a virtual clock: the overlay makes util/hashcash and
+	// spec/pow read VerifNow; sequential, after the pool, so nothing else sees the clock move
+	{
+		var vnow atomic.Int64 // Unix nanoseconds
+		clock := func() time.Time { return time.Unix(0, vnow.Load()).UTC() }
+		hashcash.VerifNow, pow.VerifNow = clock, clock
+		base := now.Add(time.Hour).Truncate(time.Second)
+		// is the virtual clock what the code reads? a stamp expiring at base: valid an hour before, expired an hour after
+		probe := proof(fixedKey, valid(fixedKey, dT, base.Unix(), pkiSubject(fixedKey.pub), "SHA-256"))
+		vnow.Store(base.Add(-time.Hour).UnixNano())
+		_, e1 := pow.VerifySolution(probe, pkiParams(dT))
+		vnow.Store(base.Add(time.Hour).UnixNano())
+		_, e2 := pow.VerifySolution(probe, pkiParams(dT))
+		if e1 != nil || e2 == nil {
+			r.Assume(fmt.Sprintf("the virtual clock is not effective (probe: %v / %v): the expiry instant itself is not examined", e1, e2))
+		} else {
+			offs := []struct {
+				name string
+				off  time.Duration
+				ok   bool
+				dc   bool
+			}{
+				{"2s-before", -2 * time.Second, true, false}, {"1s-before", -time.Second, true, false}, {"1ms-before", -time.Millisecond, true, false}, {"1ns-before", -time.Nanosecond, true, false},
+				{"at-the-instant", 0, true, true}, // whether the instant itself still counts is not pinned down by the statement
+				{"1ns-after", time.Nanosecond, false, false}, {"1ms-after", time.Millisecond, false, false}, {"150ms-after", 150 * time.Millisecond, false, false}, {"500ms-after", 500 * time.Millisecond, false, false},
+				{"999ms-after", 999 * time.Millisecond, false, false}, {"1s-after", time.Second, false, false}, {"1s+1ns-after", time.Second + 1, false, false}, {"2s-after", 2 * time.Second, false, false}, {"61s-after", 61 * time.Second, false, false},
+				// the other end of the allowed window: the stamp expires 2*window after the clock
+				{"window-edge-1s-inside", -2*window + time.Second, true, false}, {"window-edge-1ns-inside", -2*window + 1, true, false},
+				{"window-edge-exact", -2 * window, true, true},
+				{"window-edge-1ns-outside", -2*window - 1, false, false}, {"window-edge-1s-outside", -2*window - time.Second, false, false},
+			}
+			nb := 0
+			for rep := 0; rep < r.Pick(4, 40); rep++ {
+				T := base.Add(time.Duration(rng.Intn(86400)) * time.Second)
+				k := newKey(rng)
+				p := proof(k, valid(k, dT, T.Unix(), pkiSubject(k.pub), "SHA-256"))
+				hc, perr := hashcash.Parse(p.GetSolution())
+				for _, o := range offs {
+					name := fmt.Sprintf("expiry-instant/%s/%d", o.name, rep)
+					if !r.WantCase(name) {
+						continue
+					}
+					vnow.Store(T.Add(o.off).UnixNano())
+					_, err := pow.VerifySolution(p, pkiParams(dT))
+					var herr error = perr
+					if perr == nil {
+						herr = hc.Verify(pkiSubject(k.pub))
+					}
+					nb++
+					for _, lv := range []struct {
+						api string
+						err error
+					}{{"pow.VerifySolution", err}, {"hashcash.Verify", herr}} {
+						if strings.HasPrefix(o.name, "window-edge") && lv.api == "hashcash.Verify" {
+							continue // the window is a rule of pow.VerifySolution only
+						}
+						if o.dc {
+							r.Case("")
+							continue
+						}
+						r.Case(fmt.Sprintf("expiry-instant/%s/%s/%v", lv.api, o.name, lv.err == nil))
+						if (lv.err == nil) != o.ok {
+							what := "rejected a proof that has not expired"
+							if lv.err == nil {
+								what = "accepted an expired proof"
+							}
+							r.Violation("expiry-instant:"+o.name, name, fmt.Sprintf("%s %s: the stamp expires at %s, the clock reads %s (%s): %v", lv.api, what, T.Format(time.RFC3339), T.Add(o.off).Format(time.RFC3339Nano), o.name, lv.err),
+								map[string]any{"stamp": p.GetSolution(), "expires_at": T.Format(time.RFC3339Nano), "clock": T.Add(o.off).Format(time.RFC3339Nano), "api": lv.api, "error": fmt.Sprint(lv.err)})
+						}
+					}
+				}
+			}
+			r.Count("expiry_instant_probes_on_virtual_clock", int64(nb))
+		}
+		hashcash.VerifNow, pow.VerifNow = time.Now, time.Now
+	}
 
 	// observation only: Difficulty 0 is replaced by 10 inside hashcash.New, so the
 	// solver cannot produce a difficulty-0 proof; the property's solver clause is
